@@ -66,6 +66,10 @@ def main(argv):
                 for b, w, c in ctx.fresh(mod.replay(ctx, rep["case"])):
                     ctx.found[b] = {"what": w, "case": common.jsonable(c), "via": "regress/" + fn}
     mod.run(ctx)
+    # the same (quick) exploration under other ambient conditions of the interpreter process
+    for tag, flags, env in common.AMBIENTS:
+        if tag not in getattr(mod, "SKIP_AMBIENT", ()) and not os.environ.get("VF_NO_AMBIENT"):
+            common.sub_pass(ctx, flags, tag, env)
     return common.finish(ctx, level=mod.LEVEL, rule=mod.RULE, assumptions=mod.ASSUMPTIONS, t0=t0)
 
 
